@@ -1,5 +1,6 @@
 import Nstd.Buffer.Props
 import Nstd.Buffer.Backlog
+import Nstd.Buffer.LemmasRaw
 /-
   Property C08, client level: the send backlog of a server client (src/Socket/Server.cpp:343-357,459-475).
 
@@ -49,6 +50,61 @@ theorem backlog_faithful (nvars : Nat) (regs : List (List Byte)) (v : Nat) (hv :
   refine ⟨st, _, hrun, hb, hceq ▸ hc, ?_, fun ho => terminator_zero nvars regs _ st hrun v _ hb ho, ?_⟩
   · rw [hsz, hceq]; simp [bytesOf]
   · exact Nat.le_trans (capacity_policy_bound nvars regs _ st hrun v _ hb) hsp.2
+
+/-- **Several clients, interleaved.**  Any number of clients (variables), each with its own send backlog; any
+    interleaving of their `append | removeFront k≤size | clear | free` operations with any capacity wishes: the model
+    does not fault and EVERY client's Buffer exposes exactly ITS unsent suffix, keeps its terminator, and its capacity is
+    bounded by ITS OWN high-water mark (and its own largest wish) – the other clients' traffic does not matter. -/
+theorem backlog_faithful_multi (nvars : Nat) (regs : List (List Byte)) (ops : List MOp)
+    (hvs : ∀ p ∈ ops, p.1 < nvars) (hadm : ∀ v, Admissible {} ((proj v ops).map Prod.fst)) :
+    ∃ st, run (init nvars regs) (mops ops) = some st ∧ ∀ v, v < nvars → ∃ b, st.getBuf v = some b ∧
+      contents st v = some (bytesOf (trackAll {} ((proj v ops).map Prod.fst)).unsent) ∧
+      b.size = (trackAll {} ((proj v ops).map Prod.fst)).unsent.length ∧
+      (b.owning = true → Nstd.Buffer.terminator st v = some (some (some 0))) ∧
+      b.cap ≤ max (trackAll {} ((proj v ops).map Prod.fst)).peak (wishMax (proj v ops)) := by
+  have h0 : ∀ v b, (init nvars regs).bufs[v]? = some b →
+      Spec.get (Spec.init nvars) v = bytesOf (({} : Track)).unsent ∧ ({} : Track).sent ≤ ({} : Track).all.length ∧
+        b.cap ≤ max ({} : Track).peak 0 := by
+    intro v b hb
+    obtain ⟨hv, rfl⟩ := init_bufs nvars regs v b hb
+    refine ⟨?_, Nat.le_refl _, by simp [Buf.default]⟩
+    simp [Spec.get, Spec.init, List.getD_eq_getElem?_getD, hv, Track.unsent, bytesOf]
+  obtain ⟨st, qs, hrun, hi, hr, hlen, hfin⟩ := multi_run ops (init nvars regs) (Spec.init nvars) (fun _ => {}) (fun _ => 0)
+    (init_inv nvars regs) (init_rel nvars regs) (by simpa [init] using hvs) h0 hadm
+  have hl : st.bufs.length = nvars := by simpa [init] using hlen
+  refine ⟨st, hrun, fun v hv => ?_⟩
+  have hvl : v < st.bufs.length := hl ▸ hv
+  have hb : st.getBuf v = some st.bufs[v] := List.getElem?_eq_getElem hvl
+  obtain ⟨hq, hcap⟩ := hfin v _ hb
+  have hm := hr.2 v _ hb
+  rw [hq] at hm
+  have hd := match_bytesOf_eq hm
+  have hc := contents_state hi hvl
+  refine ⟨_, hb, hd ▸ hc, ?_, fun ho => terminator_of_inv hi hb ho, by simpa using hcap⟩
+  rw [Buf.size, ← data_length (hi.1 v _ hb), hd]
+  simp [bytesOf]
+
+/-- **The client model performs only the backlog protocol.**  `writeOps` / `readyOps` (Client.lean) follow
+    `ClientImpl::write` (Server.cpp:441-477) and the write-readiness branch of `run()` (Server.cpp:333-362) and are
+    executed against the real code by the backlog-client stream (harness/buffer_backlog.cpp).  Whatever `send` answers:
+    a write only appends; a write-readiness event only removes `sent ≤ size()` bytes at the front and/or frees – the
+    operations `Admissible` allows – and never touches an empty backlog other than by `free`. -/
+theorem client_model_follows_protocol (size : Nat) (d : List Nat) (o : Outcome) :
+    (∀ b ∈ (writeOps size d o).1, ∃ d', b = BOp.append d') ∧
+    (∀ b ∈ (readyOps size o).1, b = BOp.free ∨ ∃ n, b = BOp.removeFront n ∧ 0 < n ∧ n ≤ size) := by
+  constructor
+  · intro b hb
+    unfold writeOps at hb
+    cases o <;> simp only [] at hb <;> (repeat' split at hb) <;> simp at hb <;> exact ⟨_, hb⟩
+  · intro b hb
+    unfold readyOps at hb
+    cases o <;> simp only [] at hb <;> (repeat' split at hb) <;> simp at hb
+    all_goals first
+      | exact Or.inl hb
+      | exact Or.inr ⟨_, hb, by omega, by omega⟩
+      | (rcases hb with hb | hb
+         · exact Or.inr ⟨_, hb, by omega, by omega⟩
+         · exact Or.inl hb)
 
 /-! ### non-vacuity -/
 
